@@ -127,6 +127,23 @@ def execStep (cfg : Cfg) (s : Retry.State) (k : Retry.Key) (t : Task) (sc : Scri
   let r := exec cfg t sc
   (Retry.step s (.finish k r.ok), r)
 
+/-! ### the origin side of a replicate request (origin/blobserver replicateToRemote) -/
+
+structure Origin where
+  cache : List Digest := []      -- blobs in this origin's cache
+  backend : List Digest := []    -- blobs its backend holds
+  remote : List Digest := []     -- blobs uploaded to the remote origin cluster
+  deriving DecidableEq, Repr
+
+/-- POST /namespace/<ns>/blobs/<d>/remote/<remote>: a cached blob is uploaded to the remote cluster
+(200 only after `UploadBlob` returned); an uncached one is fetched from the backend (202) or unknown (404) -/
+def replicateToRemote (o : Origin) (d : Digest) (remoteUp : Bool) : Origin × Resp :=
+  if d ∈ o.cache then
+    if remoteUp then ({ o with remote := if d ∈ o.remote then o.remote else o.remote ++ [d] }, .ok)
+    else (o, .server)
+  else if d ∈ o.backend then ({ o with cache := o.cache ++ [d] }, .accepted)
+  else (o, .client)
+
 /-! ### composition with the retry manager: the executor runs the task *stored in the table* -/
 
 /-- a worker of the retry manager executes task `k`: the dependencies are the payload column of its
